@@ -7,8 +7,8 @@ import Mathlib.Data.List.Basic
   argument-reachable object at its version, for every heap — and every public function's skeleton is framed
   (`all_framed`).  This is the first clause of the property, full strength, over the model.
 * `sharing_table`: the sharing classes each function can produce, as a function of the input's features;
-  `separation_partial`: on inputs without pre-placed placeholders, payload-carrying gates and parametrised map
-  operations, no result references any mutable argument object; `separation_counterexample`: with those features the
+  `separation_partial`: on inputs without pre-placed placeholders, payload-carrying gates, parametrised operations
+  and parametrised map operations, no result references any mutable argument object; `separation_counterexample`: with those features the
   second clause of the property fails (classes S1–S4) — these are the recorded known findings, re-executed on the real
   code on every run.
 The skeletons are transcriptions; what ties them to the code is the runtime audit (fingerprints of all arguments
@@ -54,16 +54,16 @@ theorem sharing_table (f : Features) :
     shares generateExperiments f = ([Share.S3, .S2].filter (possible f)) ∧
     shares decomposeQpd f = ([Share.S3, .S2].filter (possible f)) ∧
     shares expandObservables f = [] ∧ shares reconstruct f = [] := by
-  rcases f with ⟨a, b, c⟩
-  cases a <;> cases b <;> cases c <;> decide
+  rcases f with ⟨a, b, c, d⟩
+  cases a <;> cases b <;> cases c <;> cases d <;> decide
 
 /-- T16.2_partial: without pre-placed placeholders, payload-carrying gates and parametrised map operations no public
 function returns anything that references a mutable object of its arguments -/
-theorem separation_partial : table.all (fun e => shares e.2 ⟨false, false, false⟩ = []) = true := by decide
+theorem separation_partial : table.all (fun e => shares e.2 ⟨false, false, false, false⟩ = []) = true := by decide
 
 /-- T16.2 fails at full strength: the four sharing classes are reachable (known findings D6/S1–S4) -/
 theorem separation_counterexample :
-    Share.S1 ∈ shares partitionProblem ⟨true, false, false⟩ ∧ Share.S2 ∈ shares findCuts ⟨false, true, false⟩ ∧
-    Share.S3 ∈ shares generateExperiments ⟨false, false, true⟩ ∧ Share.S4 ∈ shares cutWires ⟨false, true, false⟩ := by decide
+    Share.S1 ∈ shares partitionProblem ⟨true, false, false, false⟩ ∧ Share.S2 ∈ shares findCuts ⟨false, true, false, false⟩ ∧
+    Share.S3 ∈ shares generateExperiments ⟨false, false, true, false⟩ ∧ Share.S4 ∈ shares cutWires ⟨false, false, false, true⟩ := by decide
 
 end CKT.C16
